@@ -86,7 +86,9 @@ def resolve(base, ref):
             ta, tp, tq = ra, remove_dot_segments(rp), rq
         else:
             if rp == '':
-                tp = bp
+                # (RFC 3986 keeps the base path as it is here; the property wants the target normalised in every case,
+                #  so a base that still has dot segments gets them removed for same-document references too)
+                tp = remove_dot_segments(bp)
                 tq = rq if rq is not None else bq
             else:
                 if rp.startswith('/'):
@@ -136,7 +138,7 @@ def canon_empty_path(s):
 _name = st.sampled_from(['a', 'b', 'c', 'x', 'g', 'd;p', 'k=v', 'a,b', 'x1', '~u', 'A', 'a.b', '..a', 'a..', '.a', '-', '_',
                          # escaped delimiters (must stay escaped and never act as separators) and a colon inside a segment
                          '%2F', 'a%2Fb', '%2F..', '%3Fx', '%23y', 'c:', 'c:'])
-_bseg = st.one_of(_name, _name, _name, st.just(''))
+_bseg = st.one_of(_name, _name, _name, _name, _name, _name, st.just(''), st.just(''), st.sampled_from(['.', '..']))   # bases are not always normalised
 _rseg = st.one_of(st.sampled_from(['.', '..', '..', '', '.']), _name)
 _q = st.sampled_from(['q', 'y', 'k=v', 'a=1&b=2', 'x=y/./z', 'p=..', 'next=http://o.example/p', 'u=a://b/../c', 'r=//h/p',
                       # a repeated key with another key in between (pair order must survive), and an empty query (path?#frag)
@@ -260,6 +262,25 @@ def check_navigate(bt, refs, out):
         if cur.to_text() != step_base_text:
             out.fail('c07.base-modified', 'navigate(%r) changed its base from %r to %r' % (ref, step_base_text, cur.to_text()))
             return False
+        # the result is a NEW url: editing it in place must not reach back into the base or into a reference given as a URL object
+        ref_obj = URL(ref)
+        ref_before = ref_obj.to_text()
+        n5 = _call(cur.navigate, ref_obj)
+        if n5[0] == 'ok':
+            n5[1].query_params.add('zz_edit', '1')
+            if n5[1].query_params:
+                k0 = list(n5[1].query_params.keys())[0]
+                n5[1].query_params[k0] = 'edited'
+            n5[1].path_parts = tuple(list(n5[1].path_parts) + ['edited'])
+            n5[1].fragment = 'edited'
+            if cur.to_text() != step_base_text:
+                out.fail('c07.base-modified.via-result', 'from %r: the URL returned by navigate(%r) was edited in place (query_params, path_parts, fragment) and the '
+                         'base changed to %r' % (step_base_text, ref, cur.to_text()))
+                return False
+            if ref_obj.to_text() != ref_before:
+                out.fail('c07.reference-modified.via-result', 'from %r: the URL returned by navigate(URL(%r)) was edited in place and the reference object '
+                         'changed to %r' % (step_base_text, ref, ref_obj.to_text()))
+                return False
         # references given as URL objects whose query was put together / taken apart through query_params
         # (what counts is what the reference *is*, i.e. its to_text(), not how it was parsed)
         ru = URL(ref)
